@@ -122,12 +122,14 @@ def run(
     on_line=None,
     dump_trace: bool = False,
     keep_cases: bool = True,
+    meta_root: str | None = None,
 ) -> TLCResult:
     """Run TLC. `cfg` names a file in spec/cfg/ (without directory); `cfg_text` supplies one inline.
 
     `constants`: textual substitutions `@KEY@` -> value applied to the cfg (to emit literal constants).
     """
-    meta = tempfile.mkdtemp(prefix="tlc-", dir=scratch_root())
+    # TLC's metadir holds its on-disk state queue / fingerprint files: large searches should not keep them in tmpfs
+    meta = tempfile.mkdtemp(prefix="tlc-", dir=meta_root or os.environ.get("VERIF_TLC_META") or scratch_root())
     try:
         if cfg_text is None:
             with open(os.path.join(SPEC_DIR, "cfg", cfg)) as fh:
@@ -161,23 +163,9 @@ def run(
         penv.pop("JAVA_TOOL_OPTIONS", None)
         penv.update({k: str(v) for k, v in (env or {}).items()})
         out_path = os.path.join(meta, "tlc.out")
-        slot = _acquire_slot()
-        t0 = time.time()
-        try:
-            with open(out_path, "w") as out:
-                try:
-                    proc = subprocess.run(cmd, stdout=out, stderr=subprocess.STDOUT, env=penv, cwd=SPEC_DIR, timeout=timeout, check=False)
-                    res.rc = proc.returncode
-                except subprocess.TimeoutExpired:
-                    res.rc = -9
-                    res.errors.append(f"timeout after {timeout}s")
-        finally:
-            if slot is not None:
-                slot.close()
-        res.wall_s = time.time() - t0
         tail = []
-        with open(out_path, errors="replace") as fh:
-            for line in fh:
+
+        def handle(line):
                 line = line.rstrip("\n")
                 m = _RE_CASE.match(line)
                 if m:
@@ -193,34 +181,74 @@ def run(
                             res.ncases += 1
                         if on_line:
                             on_line(rec)
-                    continue
+                    return
                 tail.append(line)
                 if len(tail) > 400:
                     del tail[:200]
                 m = _RE_STATES.match(line)
                 if m:
                     res.generated, res.distinct, res.queue = int(m.group(1)), int(m.group(2)), int(m.group(3))
-                    continue
+                    return
                 m = _RE_INV.match(line)
                 if m:
                     res.violated.append(m.group(1))
-                    continue
+                    return
                 m = _RE_PROP.match(line)
                 if m:
                     res.violated.append(m.group(1))
-                    continue
+                    return
                 m = _RE_DEPTH.match(line)
                 if m:
                     res.depth = int(m.group(1))
-                    continue
+                    return
                 m = _RE_COV.match(line)
                 if m and coverage:
                     res.coverage[m.group(1)] = (int(m.group(4)), int(m.group(5)))
-                    continue
+                    return
                 if line.startswith("Model checking completed") or line.startswith("Finished in") or "Finished computing initial states" in line and simulate:
                     res.finished = True
                 if line.startswith("Error:") and "Invariant" not in line and "property" not in line.lower() and "behavior up to this point" not in line.lower():
                     res.errors.append(line)
+
+        slot = _acquire_slot()
+        t0 = time.time()
+        try:
+            if keep_cases:
+                with open(out_path, "w") as out:
+                    try:
+                        proc = subprocess.run(cmd, stdout=out, stderr=subprocess.STDOUT, env=penv, cwd=SPEC_DIR, timeout=timeout, check=False)
+                        res.rc = proc.returncode
+                    except subprocess.TimeoutExpired:
+                        res.rc = -9
+                        res.errors.append(f"timeout after {timeout}s")
+            else:
+                # streaming: CASE lines go straight to on_line, nothing but the other lines is stored
+                import threading  # noqa: PLC0415
+
+                proc = subprocess.Popen(cmd, stdout=subprocess.PIPE, stderr=subprocess.STDOUT, env=penv, cwd=SPEC_DIR, text=True, errors="replace", bufsize=1 << 20)
+                timed_out = []
+                timer = threading.Timer(timeout, lambda: (timed_out.append(1), proc.kill()))
+                timer.start()
+                try:
+                    with open(out_path, "w") as out:
+                        for line in proc.stdout:
+                            if not line.startswith('<<"CASE"'):
+                                out.write(line)
+                            handle(line)
+                    res.rc = proc.wait()
+                finally:
+                    timer.cancel()
+                if timed_out:
+                    res.rc = -9
+                    res.errors.append(f"timeout after {timeout}s")
+        finally:
+            if slot is not None:
+                slot.close()
+        res.wall_s = time.time() - t0
+        if keep_cases:
+            with open(out_path, errors="replace") as fh:
+                for line in fh:
+                    handle(line)
         if simulate and res.rc in (0,) :
             res.finished = True
         res.tail = "\n".join(tail[-60:])
